@@ -5,7 +5,7 @@ import os
 import random
 
 LEVEL = 'exploration'
-RULE = ('all sequences over the 14 outcome kinds up to length 3 (2954, '
+RULE = ('all sequences over the 15 outcome kinds up to length 3 (3615, '
         'exhaustive; thorough adds sampled length 4-5) run inside a random '
         'layer stack whose layers carry both / one / none of the per-test '
         'hooks, x --repeat 1-3, x -x; a sample is repeated as CLI runs on '
@@ -22,7 +22,11 @@ BATCH_TIMEOUT = 300
 
 KINDS = ['pass', 'fail', 'error', 'setup_error', 'teardown_error',
          'cleanup_error', 'body_teardown_error', 'skip_deco', 'skip_setup',
-         'skip_body', 'xfail', 'uxsuccess', 'subtests', 'class_skip']
+         'skip_body', 'xfail', 'uxsuccess', 'subtests', 'class_skip',
+         # sub-tests of which at least one is skipped from inside its
+         # subTest block (a skip event that arrives in mid-test, for the
+         # sub-test object)
+         'subskip']
 
 PYTHONS = ['/root/.pyenv/versions/3.9.18/bin/python',
            '/root/.pyenv/versions/3.10.13/bin/python',
@@ -67,6 +71,11 @@ def make_world(prefix, seq, rng):
         t = {'name': 'test_%02d' % i, 'kind': 'pass' if skipcls else k}
         if k == 'subtests':
             t['subs'] = ['F', 'P', 'E']
+        elif k == 'subskip':
+            t['kind'] = 'subtests'
+            t['subs'] = rng.choice([['S'], ['P', 'S'], ['S', 'S'],
+                                    ['S', 'F'], ['F', 'S', 'E'],
+                                    ['P', 'S', 'P']])
         cur['tests'].append(t)
     nodes = []
     for ci, c in enumerate(classes):
